@@ -597,7 +597,7 @@ func genValue(t *rapid.T) string {
 		return string(rapid.SliceOfN(rapid.Byte(), 1, 16).Draw(t, "bytes"))
 	case 2:
 		if rapid.IntRange(0, 3).Draw(t, "b64") == 0 {
-			return []string{"YWI=", "YQ==", "a=b", "=", "=x", "x==y=", "1=1"}[rapid.IntRange(0, 6).Draw(t, "eqv")]
+			return []string{"YWI=", "YQ==", "a=b", "=", "=x", "x==y=", "1=1", "100%25", "a%2Fb", "%E4%B8%AD%E5%9B%BD", "%3D%26", "a+b%2B", "%25"}[rapid.IntRange(0, 12).Draw(t, "eqv")]
 		}
 		return rapid.StringMatching(`[a-z;,=&%+ "\\/?#]{1,10}`).Draw(t, "sep")
 	case 3:
